@@ -177,6 +177,39 @@ def _py_dunder(obj, name):
     return None
 
 
+class SymSet:
+    """A set display / comprehension with symbolic members (A4): a bag of terms in which two members may be equal.
+    Supported: membership, union, intersection, and the truth value / emptiness of the result."""
+    def __init__(self, items):
+        self.items = list(items)
+
+    def __and__(self, other):
+        return SymInter(self, SymSet.of(other))
+
+    def __or__(self, other):
+        return SymSet(self.items + SymSet.of(other).items)
+
+    @staticmethod
+    def of(x):
+        return x if isinstance(x, SymSet) else SymSet(list(x))
+
+    def nonempty(self):
+        return bool(self.items)
+
+    def contains(self, item):
+        return Or(*[x == item for x in self.items]) if self.items else False
+
+
+class SymInter:
+    """a & b for symbolic sets: only its emptiness is defined."""
+    def __init__(self, a, b):
+        self.a, self.b = a, b
+
+    def nonempty(self):
+        pairs = [x == y for x in self.a.items for y in self.b.items]
+        return Or(*pairs) if pairs else False
+
+
 class Interp:
     LOOP_FUEL = 64
 
@@ -370,6 +403,11 @@ class Interp:
             else:
                 raise OutsideSubset(f'constructor of {f.__name__} with symbolic arguments')
             return obj
+        mod = getattr(getattr(f, '__func__', f), '__module__', '') or ''
+        if mod.split('.')[0] in ('pyvc', 'specs', 'z3', 'sympy') or (mod.split('.')[0] in ('contracts', 'harness')
+                                                                      and getattr(f, '__name__', '') not in ('call', 'run_call')):
+            # verification-side code (specification helpers, z3 API) is never interpreted
+            return self.native(f, args, kw)
         if inspect.isfunction(f):
             return self.call_function(f, args, kw)
         if inspect.ismethod(f):
@@ -617,6 +655,9 @@ class Interp:
             if z3.is_bool(t):
                 return self.p.branch(t)
             return self.p.branch(t != 0)
+        if isinstance(v, (SymSet, SymInter)):
+            t = v.nonempty()
+            return self.p.branch(t.t) if is_sym(t) else bool(t)
         if isinstance(v, SymArray):
             raise OutsideSubset('truth value of an array')
         try:
@@ -625,6 +666,12 @@ class Interp:
             raise OutsideSubset('truth value of a container comparison with symbolic parts')
 
     def binop(self, op, a, b):
+        if isinstance(a, SymSet) or isinstance(b, SymSet):
+            if isinstance(op, ast.BitAnd):
+                return SymSet.of(a) & SymSet.of(b)
+            if isinstance(op, ast.BitOr):
+                return SymSet.of(a) | SymSet.of(b)
+            raise OutsideSubset('operation on a set with symbolic members')
         if isinstance(a, np.ndarray) and anysym(b):
             a = SymArray.of(a)
         if isinstance(b, np.ndarray) and anysym(a):
@@ -713,6 +760,8 @@ class Interp:
             raise Raised(exc) from None
 
     def contains(self, container, item):
+        if isinstance(container, SymSet):
+            return container.contains(item)
         if isinstance(container, (list, tuple)) and (anysym(container) or anysym(item)):
             return Or(*[self.equal(item, x) for x in container]) if container else False
         if isinstance(container, (set, frozenset, dict)) and anysym(item):
@@ -863,7 +912,7 @@ class Interp:
             self.comp(e.generators, 0, dict(env), lambda env2: out.append(self.ev(e.elt, env2)))
             if isinstance(e, ast.SetComp):
                 if anysym(out):
-                    raise OutsideSubset('set comprehension with symbolic members')
+                    return SymSet(out)
                 return set(out)
             return out if isinstance(e, ast.ListComp) else iter(out)
         if isinstance(e, ast.DictComp):
